@@ -112,6 +112,7 @@ inductive OpResult
   | prev (v : Option Bytes)      -- insert: previous first value
   | existed (b : Bool)           -- append: whether the key was present
   | removed (v : Option Bytes)
+  | entry (v : Bytes)            -- entry(..).or_insert(..): the first value now stored
 deriving DecidableEq, Repr
 
 /-- `map.insert(MetadataKey::from_bytes(key)?, MetadataValue::try_from(val)?)` (resp. `_bin`) -/
@@ -131,6 +132,20 @@ def append (v : Variant) (enc : Enc) (key val : Bytes) (m : HMap) : OpResult × 
     match valueFromBytes enc val with
     | none => (.valErr, m)
     | some w => (.existed (HMap.hasKey n m), HMap.append n w m)
+
+/-- `map.entry(key)?.or_insert(MetadataValue::try_from(val)?)` (resp. `entry_bin`), key a `&str` -/
+def entryOrInsert (v : Variant) (enc : Enc) (ks val : Bytes) (m : HMap) : OpResult × HMap :=
+  if !validKey v enc ks then (.keyErr, m)
+  else
+    match HMap.normName ks with
+    | none => (.keyErr, m)
+    | some n =>
+      match valueFromBytes enc val with
+      | none => (.valErr, m)
+      | some w =>
+        match HMap.get n m with
+        | some cur => (.entry cur, m)
+        | none => (.entry w, HMap.insert n w m)
 
 /-! ### carriers -/
 
